@@ -48,6 +48,8 @@ def run(tier, seed):
     obs += guarded("C03.engine.envelope.guard_moments@L47", lambda: envelope.guard_moments("C03", "Skewness", ["mean", "population_variance", "sample_variance", "error_mean", "skewness"],
                                   "src/moments/skewness.rs::Skewness (add-only histories)"))
     obs += guarded("C03.engine.vl.run_lemmas@L49", lambda: vl.run_lemmas("C03", ["lemma_fold", "swap", "realizable", "bridge", "real_sq"]))
+    import rs_crosscheck
+    obs += guarded("C03.engine.rs_crosscheck", lambda: rs_crosscheck.crosscheck("C03", ['Skewness', 'Kurtosis']))
     meta = {
         "level": "proof",
         "checker_cmd": "./check C03 (rsx -> RS executor -> sympy normal form / z3 QF_NRA; verus history.rs)",
